@@ -13,6 +13,7 @@ import (
 	"time"
 
 	"github.com/scrapli/scrapligo/channel"
+	"github.com/scrapli/scrapligo/driver/generic"
 	"github.com/scrapli/scrapligo/driver/netconf"
 	"github.com/scrapli/scrapligo/driver/network"
 	"github.com/scrapli/scrapligo/driver/options"
@@ -73,6 +74,10 @@ func genC07(r *sim.Rng) *c07Case {
 	}
 	c.DelayUS = []int{1, 20, 250, 1000}[r.Intn(4)] // grace = delay*(delay/1000): 1 ms -> 1 s
 	c.JitterUS = []int{0, 0, 50, 300, 1500, 5000}[r.Intn(6)]
+	if r.Intn(12) == 0 {
+		c.Driver, c.OnClose = "generic-standard", 0
+		c.State = r.Pick([]string{"idle", "session-ended", "peer-gone"})
+	}
 	return c
 }
 
@@ -85,6 +90,13 @@ func runC07(seed uint64, n int, tier string) {
 			for oc := 0; oc < 3; oc++ {
 				cases = append(cases, &c07Case{Driver: d, State: s, OnClose: oc, DelayUS: 250})
 			}
+		}
+	}
+	// the built-in crypto/ssh transport against an in-process server: a live session, a session the
+	// server ended while keeping the connection (the device's shell exited), a dropped connection
+	for _, s := range []string{"idle", "session-ended", "peer-gone"} {
+		for _, dl := range []int{20, 250} {
+			cases = append(cases, &c07Case{Driver: "generic-standard", State: s, DelayUS: dl})
 		}
 	}
 	// forced orders: every pair (reader-side label, closer-side label) in both orders, per driver
@@ -196,6 +208,12 @@ func runC07Case(id string, c *c07Case) {
 	// model's quiescent states, and the record of yield points passed since the scenario's initial
 	// state must be a possible record of a run of the model
 	mdriver, mstate, tstate, second, user := c07ModelScenario(c)
+	if c.Driver == "generic-standard" {
+		// a real transport: the direct oracle only (the protocol model is about the channel and the
+		// drivers over a transport whose Close closes it)
+		emit(cs)
+		return
+	}
 	if got && !killed && o.Panicked == "" {
 		leak := o.Goroutines1 - o.Goroutines0
 		if leak < 0 {
@@ -388,6 +406,10 @@ func (g *gate) release() {
 func c07Child() {
 	var c c07Case
 	if json.Unmarshal([]byte(os.Getenv("VERIF_C07_CHILD")), &c) != nil {
+		return
+	}
+	if c.Driver == "generic-standard" {
+		c07ChildStandard(&c)
 		return
 	}
 	o := c07Obs{}
@@ -630,6 +652,91 @@ func c07Child() {
 	ctl.mu.Lock()
 	o.Trace = append([]string(nil), ctl.trace...)
 	ctl.mu.Unlock()
+	if o.Goroutines1 > g0 && os.Getenv("VERIF_C07_STACKS") != "" {
+		buf := make([]byte, 1<<16)
+		n := runtime.Stack(buf, true)
+		fmt.Fprintln(os.Stderr, string(buf[:n]))
+	}
+	b, _ := json.Marshal(o)
+	fmt.Println(string(b))
+}
+
+// c07ChildStandard: the generic driver over the built-in crypto/ssh transport against an in-process
+// ssh server (one connection).  States: idle (Close on a live session), session-ended (the server
+// ended the session channel — the device's shell exited — and kept the connection up; the reader
+// has seen the end of the stream), peer-gone (the server dropped the connection).  "The transport
+// is closed" is observed at the server: its side of the connection ends.
+func c07ChildStandard(c *c07Case) {
+	o := c07Obs{}
+	g0 := runtime.NumGoroutine()
+	o.Goroutines0 = g0
+	p, err := newC16SSHPeer("none", nil, &idleDev{hello: []byte("router#")})
+	if err != nil {
+		fmt.Println(`{"panicked":"setup failed"}`)
+		return
+	}
+	delay := time.Duration(c.DelayUS) * time.Microsecond
+	d, err := generic.NewDriver("127.0.0.1", options.WithPort(p.Port()), options.WithTransportType("standard"),
+		options.WithAuthNoStrictKey(), options.WithAuthUsername(c16User), options.WithTimeoutSocket(3*time.Second),
+		options.WithReadDelay(delay), options.WithTimeoutOps(2*time.Second))
+	if err != nil || d.Open() != nil {
+		fmt.Println(`{"panicked":"setup failed"}`)
+		return
+	}
+	_ = p.ln.Close() // one connection only: the accept loop is over
+	if _, err := d.GetPrompt(); err != nil {
+		fmt.Println(`{"panicked":"setup failed"}`)
+		return
+	}
+	switch c.State {
+	case "session-ended":
+		p.EndSession()
+		time.Sleep(30 * time.Millisecond) // the reader sees the end of the stream
+	case "peer-gone":
+		p.Hangup()
+		time.Sleep(30 * time.Millisecond)
+	}
+	if c.JitterUS > 0 {
+		time.Sleep(time.Duration(c.JitterUS) * time.Microsecond)
+	}
+	res := make(chan string, 1)
+	t0 := time.Now()
+	go func() {
+		defer func() {
+			if pn := recover(); pn != nil {
+				res <- "panic: " + fmt.Sprint(pn)
+			}
+		}()
+		if err := d.Close(); err != nil {
+			res <- "err: " + err.Error()
+			return
+		}
+		res <- "ok"
+	}()
+	select {
+	case r := <-res:
+		o.Returned = true
+		if strings.HasPrefix(r, "panic: ") {
+			o.Panicked = r
+		} else if r != "ok" {
+			o.CloseErr = r
+		}
+	case <-time.After(3 * time.Second):
+	}
+	o.CloseMS = float64(time.Since(t0).Microseconds()) / 1000
+	select {
+	case <-p.stopped:
+		o.Closed = true
+	case <-time.After(time.Second):
+	}
+	deadline := time.Now().Add(400 * time.Millisecond)
+	for time.Now().Before(deadline) {
+		if runtime.NumGoroutine() <= g0 {
+			break
+		}
+		time.Sleep(5 * time.Millisecond)
+	}
+	o.Goroutines1 = runtime.NumGoroutine()
 	if o.Goroutines1 > g0 && os.Getenv("VERIF_C07_STACKS") != "" {
 		buf := make([]byte, 1<<16)
 		n := runtime.Stack(buf, true)
